@@ -19,7 +19,10 @@ class Prop(BaseProp):
                 "C17_empty_inner_rejected", "C17_out_of_range_rejected", "C17_by_path_is_fold_ckd", "C17_deep_path_refuted"]
     exec_modules = ["Exec.C17"]
     extra_modules = {"C17Src": ["C17_source_convert_hardened_is_model", "C17_source_component_range", "C17_source_out_of_range_raises", "C17_source_translated"]}
-    pysem_funcs = ["wallet_utils.Bip32Path.convert_hardened", "wallet_utils.Bip32Path.is_hardened", "wallet_utils.Bip32Path.is_private"]
+    pysem_funcs = ["wallet_utils.Bip32Path.convert_hardened", "wallet_utils.Bip32Path.is_hardened", "wallet_utils.Bip32Path.is_private",
+                   "wallet_utils.list_get", "wallet_utils.Bip32Path._to_list", "wallet_utils.Bip32Path.to_list", "wallet_utils.Bip32Path.integrity_check",
+                   "wallet_utils.Bip32Path.__init__", "wallet_utils.Bip32Path.m", "wallet_utils.Bip32Path.repr_hardened",
+                   "wallet_utils.Bip32Path.__repr__", "wallet_utils.Bip32Path.parse"]
     exec_import = "From BHW Require Import Lib.Base Exec.Common Exec.C17.\nFrom Coq Require Import String.\nOpen Scope string_scope."
     shard = 200
     rule = ("Parse: index lists of length 0..5 over {0,1,2^31-1,2^31,2^31+1,2^32-1,random}, both markers, both roots, formatted and parsed; "
